@@ -12,6 +12,7 @@ from vt import sym
 from vt.props import _listen
 
 ID = "C04"
+CROSSCHECK = 2  # thorough tier: obligations per case re-decided by the cvc5 binary
 LEVEL = "model_checking"
 TECHNIQUE = "bounded symbolic model checking of the real prefetcher/runner: environment schedules as choice variables, A and P as z3 Ints flowing through the real semaphores, bound obligation discharged by z3 per path"
 EXPLANATION = (
@@ -27,27 +28,33 @@ ASSUMPTIONS = [
     "sync tasks / thread pools are not used (async tasks on gates)",
 ]
 TRUSTED = ["CPython 3.12 asyncio (executed as is, virtual clock)", "z3 5.1 (LIA)", "vt.sym explorer", "scripted broker/recording stubs"]
-REQUIRED_COVERS = ["bound_reached", "saturated_with_backlog", "idle_poll"]
+REQUIRED_COVERS = ["bound_reached", "saturated_with_backlog", "idle_poll", "crashing_message"]
 
 
 def bounds(tier: str) -> Dict[str, Any]:
     return {"messages": "M <= 4 quick / 5 thorough (backlog)", "A": "unbounded Int >= 1", "P": "unbounded Int >= 0",
-            "environment choices": "K = 7 quick / 9 thorough, then deterministic drain"}
+            "environment choices": "K = 7 quick / 8 thorough, then deterministic drain"}
 
 
 def cases(tier: str) -> List[Any]:
     out = []
     Ms = (3, 4) if tier == "quick" else (4, 5)
-    K = 7 if tier == "quick" else 9
+    K = 7 if tier == "quick" else 8
     for M in Ms:
-        for prefix in itertools.product(range(4), repeat=2):
+        for prefix in itertools.product(range(4), repeat=2 if tier == "quick" else 3):
             out.append({"M": M, "K": K, "prefix": list(prefix)})
+            if M == Ms[0]:
+                out.append({"M": M, "K": K, "prefix": list(prefix), "crash": True})
     return out
 
 
 def harness(c: sym.Ctx, case: Dict[str, Any]) -> None:
     M = case["M"]
-    spec = {"M": M, "kinds": ["valid"] * M, "outcomes": ["return"] * M, "A": "sym", "P": "sym", "N": "none", "wtt": None, "K": case["K"], "prefix": case["prefix"]}
+    outcomes = ["return"] * M
+    if case.get("crash"):
+        outcomes[0] = "hook_raise"  # a message whose handling crashes must not change the bound for the others
+        c.cover("crashing_message")
+    spec = {"M": M, "kinds": ["valid"] * M, "outcomes": outcomes, "A": "sym", "P": "sym", "N": "none", "wtt": None, "K": case["K"], "prefix": case["prefix"]}
     r = _listen.run(c, spec)
     ev = r.lab.ev
     taken = ended = 0
